@@ -7,6 +7,7 @@ Mirrors, as the code is after the three proposed repairs (`proposed_fixes/C13-*.
   `shape`, `dtype`, `__eq__`                                   (pyxel/data_structure/array.py)
 * `Pixel.empty` (all-zero float64 array) and `Pixel.update(None)` (really empty)   (pixel.py)
 * the bucket setters of `Detector` (`detector.pixel = other` …, `detector.photon = other`)   (detectors/detector.py)
+* `Detector.empty(reset)` and `MKID.empty(reset)` as seen from each bucket (`emptyAll`)     (detectors/detector.py, mkid.py)
 * `Photon.array` / `array_3d` getters and setters (check order, clipping of negatives, copy),
   `Photon.__iadd__` / `__add__`, `shape`, `dtype`, `empty`, `__eq__`      (photon.py)
 
@@ -92,6 +93,7 @@ inductive Content
   | clipped (id : Nat)                   -- `np.clip(array id, 0, None)`
   | plus (c : Content) (operand : Nat)   -- numpy / xarray in-place `c += operand`
   | zeros                                -- `np.zeros(shape, float)` (Pixel.empty)
+  | timesZero (c : Content)              -- numpy in-place `c *= 0` (MKID.empty on the phase bucket; keeps NaN)
 deriving DecidableEq, Repr
 
 /-- syntactically certain to have no negative entry -/
@@ -100,6 +102,7 @@ def Content.noNeg : Content → Bool
   | .clipped _ => true
   | .zeros => true
   | .plus _ _ => false
+  | .timesZero _ => false
 
 structure Arr (γ : Type) where
   is3d : Bool            -- xarray DataArray (wavelength, y, x) rather than numpy ndarray
@@ -130,6 +133,7 @@ inductive Op
   | iadd (v : Operand)            -- `c += v`  and  `c + v` (same body in the code)
   | adopt (v : Option Operand)    -- `detector.<bucket> = other` where the container `other` holds `v` (or is empty)
   | empty                         -- `c.empty()`
+  | emptyAll (reset : Bool)       -- `detector.empty(reset)` seen from this bucket (Detector.empty, MKID.empty)
   | read | read3 | readDtype | readShape
 deriving DecidableEq, Repr
 
@@ -317,6 +321,24 @@ def step (c : Cfg) (s : State) : Op → State × Outcome
     match c.kind with
     | .pixel => (some ⟨false, [c.rows, c.cols], .float64, .zeros⟩, .ok .unit)
     | _ => (none, .ok .unit)
+  | .emptyAll reset =>
+    -- Detector.empty: photon, (charge,) signal and image are always emptied; pixel only on a
+    -- destructive reset (then: zeros); MKID.empty: an initialised phase bucket is multiplied by 0
+    -- in place on a destructive reset (`self.phase.array *= 0`, through the validating setter)
+    match c.kind with
+    | .photon | .signal | .image => (none, .ok .unit)
+    | .pixel =>
+      if reset then (some ⟨false, [c.rows, c.cols], .float64, .zeros⟩, .ok .unit) else (s, .ok .unit)
+    | .phase =>
+      match s with
+      | none => (s, .ok .unit)
+      | some a =>
+        if !reset then (s, .ok .unit)
+        else
+          let z : Arr Content := { a with content := .timesZero a.content }
+          if !c.inTl a.dtype then (some z, .error .typeError)
+          else if a.shape != [c.rows, c.cols] then (some z, .error .valueError)
+          else (some z, .ok .unit)
   | .read =>
     match s with
     | none => (s, .error .valueError)
